@@ -12,6 +12,8 @@
 //     values  = `-` or space separated  <K|P|N|I><i|u|o>,<intvalue>,<flags>   flags over c(condition) d(defaultArg) e(errorPath)
 //               s(safe) m(outOfMemory) r(outOfResources) p<n>(path) x<n>(indirect), `-` for none
 // output  :  `-` or `;`-separated  <id>/<severity>/<certainty n|i>   in report order;   err <what>
+// op line :  lib <hex path>[,<hex path>...] ## <name>*        the real Library::load on the files in order
+// output  :  <name>=<alloc group | ->/<dealloc group | ->  per name
 #include "common.h"
 #include <cctype>
 #include <cstdint>
@@ -220,6 +222,31 @@ static std::string run(const std::string& libpath, const std::vector<std::string
     }
 }
 
+static std::string libgroups(const std::vector<std::string>& f)
+{
+    if (f.size() < 3)
+        return "bad-op";
+    Library lib;
+    std::string paths = f[1];
+    std::string::size_type pos = 0;
+    while (pos <= paths.size()) {
+        const std::string::size_type c = paths.find(',', pos);
+        const std::string p = unhex(paths.substr(pos, c == std::string::npos ? std::string::npos : c - pos));
+        if (lib.load(nullptr, p.c_str()).errorcode != Library::ErrorCode::OK)
+            return "err load:" + hex(p);
+        if (c == std::string::npos)
+            break;
+        pos = c + 1;
+    }
+    std::string out;
+    for (std::size_t i = 3; i < f.size(); ++i) {
+        const Library::AllocFunc* a = lib.getAllocFuncInfo(f[i].c_str());
+        const Library::AllocFunc* d = lib.getDeallocFuncInfo(f[i].c_str());
+        out += (i > 3 ? " " : "") + f[i] + "=" + (a ? std::to_string(a->groupId) : "-") + "/" + (d ? std::to_string(d->groupId) : "-");
+    }
+    return out;
+}
+
 int main(int argc, char** argv)
 {
     const std::string libpath = argc > 1 ? argv[1] : "/repo/cfg/std.cfg";
@@ -229,6 +256,8 @@ int main(int argc, char** argv)
         std::string out = "bad-op";
         if (!f.empty() && f[0] == "sev")
             out = run(libpath, f);
+        else if (!f.empty() && f[0] == "lib" && f.size() >= 3 && f[2] == "##")
+            out = libgroups(f);
         std::cout << out << "\n";
     }
     std::cout.flush();
